@@ -17,6 +17,7 @@ int main(int argc, char **argv) {
     tr("meta prop=%s seed=%llu tier=%s", prop, (unsigned long long)seed, argv[3]);
     if (!strcmp(prop, "C16")) scen_c16(thorough ? 400 : 40, thorough ? 120 : 50);
     else if (!strcmp(prop, "C18")) scen_c18(thorough ? 60 : 12, thorough ? 4000 : 1500);
+    else if (!strcmp(prop, "C19")) scen_c19(thorough ? 200 : 10, thorough ? 120 : 80);
     else if (!strcmp(prop, "C20")) scen_c20(thorough ? 400 : 24, thorough ? 300 : 250);
     else if (!strcmp(prop, "R12") && argc >= 6) scen_replay12(argv[5]);
     else { fprintf(stderr, "no scenario for %s\n", prop); return 2; }
